@@ -354,6 +354,14 @@ def discharge(tasks, timeout_ms=60000, seed=0, cvc5_fallback=True, cvc5_recheck=
                 if r2 == "sat":
                     model, secs = model2, secs + s2
             results[oid] = Result(oid, r, label, secs0[oid] + secs, model, reason)
+    # phase 3: z3's run time on the nonlinear calendar goals varies by an order of magnitude with the seed; whatever is still
+    # unknown gets four more seeds side by side (a timeout is never a verdict, so more attempts can only turn unknown into an answer)
+    retry = [oid for oid, res in results.items() if res.status == "unknown" and expect[oid] == "unsat" and not oid.startswith("canary:") and budget(oid) > quick_ms]
+    if retry and len(retry) <= 24:
+        groups = {oid: [(f"z3/seed+{k}", _z3_task, (oid, smts[oid], budget(oid), seed + k)) for k in (2, 3, 4, 5)] for oid in retry}
+        for oid, (label, (_, r, secs, model, reason)) in _run_portfolio(groups, workers, timeout_ms / 1000 * 1.25 + 10).items():
+            if r in ("sat", "unsat"):
+                results[oid] = Result(oid, r, label, results[oid].secs + secs, model, reason)
     if cvc5_recheck:
         todo = [oid for oid, res in results.items() if res.status == "unsat" and res.backend.startswith("z3") and expect[oid] == "unsat"]
         if len(todo) > 1500:
